@@ -60,4 +60,27 @@ def sub64 (x y b : Int) : Int × Int := ((x - y - b) % 2 ^ 64, if x - y - b < 0 
 def imin (a b : Int) : Int := if a ≤ b then a else b
 def imax (a b : Int) : Int := if a ≤ b then b else a
 
+/-! ## `for` statements (translator subset)
+
+A loop of a rewrite of safe_math.go (doubling `shift` times, shift-and-add multiplication, counting bits) becomes a
+fuel-bounded iteration over the tuple of the variables it assigns.  The translator supplies 65536 as fuel: such loops are
+bounded by a width or a `uint8` shift count; a loop that needs more answers `panic` (it would hang). -/
+
+/-- answer of one iteration of a translated `for` statement -/
+inductive LoopStep (σ ρ : Type) where
+  | next (s : σ)
+  | brk (s : σ)
+  | ret (r : ρ)
+
+/-- A `for` statement: iterate `step` from state `s`; `Sum.inl r` = the function returned `r` from inside the loop
+(`onFuel` when the loop did not finish within `fuel` iterations), `Sum.inr s'` = the loop was left with state `s'`. -/
+def loop {σ ρ : Type} (fuel : Nat) (onFuel : ρ) (step : σ → LoopStep σ ρ) (s : σ) : ρ ⊕ σ :=
+  match fuel with
+  | 0 => .inl onFuel
+  | f + 1 =>
+    match step s with
+    | .next s' => loop f onFuel step s'
+    | .brk s' => .inr s'
+    | .ret r => .inl r
+
 end Hive.GoInt
